@@ -342,7 +342,7 @@ class Ctx:
     # --- finish
     def finish(self):
         os.makedirs(os.path.join(VERIF, "replays"), exist_ok=True)
-        os.makedirs(os.path.join(VERIF, "evidence"), exist_ok=True)
+        os.makedirs(os.environ.get("VERIF_EVIDENCE_DIR", os.path.join(VERIF, "evidence")), exist_ok=True)
         known = [k for k in load_known() if k.get("property") == self.prop and k.get("status") == "known"]
         # a broken obligation with no concrete violation found is still a violation
         if self.broken and not any(v["found"] for v in self.violations):
@@ -394,7 +394,7 @@ class Ctx:
             # schema: a proof-level record needs discharged >= 1; an unproved run falls back to the generic keys
             ev["coverage"]["discharged_count"] = ev["coverage"].pop("discharged")
             ev["coverage"]["evaluations"] = max(1, ev["coverage"]["evaluations"])
-        json.dump(ev, open(os.path.join(VERIF, "evidence", f"{self.prop}.json"), "w"), indent=1, default=str)
+        json.dump(ev, open(os.path.join(os.environ.get("VERIF_EVIDENCE_DIR", os.path.join(VERIF, "evidence")), f"{self.prop}.json"), "w"), indent=1, default=str)
         for l in lines[:8]:
             print(l)
         if len(lines) > 8:
